@@ -187,6 +187,71 @@ def check_polytope_native(p, profile='debug'):
     return None
 
 
+def large_face(run, funcs, N=260):
+    """with_faces on an N-gon prism (two faces with N > 255 vertices, N + 2 faces, 2N vertices): face_vertex_count / face_vertices / offsets must be
+    exact for faces with hundreds of vertices (clustered inputs produce them); executed concretely through the MIR"""
+    import math
+    planes = [((0, 0, -1), (0, 0, 1)), ((0, 0, 1), (0, 0, 0))]
+    for k in range(N):
+        t = 2 * math.pi * k / N
+        planes.append(((-round(math.cos(t), 6), -round(math.sin(t), 6), 0), (round(math.cos(t), 6), round(math.sin(t), 6), 0)))
+    verts = []
+    for k in range(N):
+        a, b = 2 + k, 2 + (k + 1) % N
+        t = 2 * math.pi * (k + 0.5) / N
+        x, y = round(math.cos(t), 6), round(math.sin(t), 6)
+        verts.append(((0, a, b), (x, y, 1)))
+        verts.append(((1, b, a), (x, y, 0)))
+    name = engine.find_fn(funcs, r'convex_cell::<impl at [^>]*>::with_faces$')
+    interp = engine.new_interp(funcs, max_visits=50000000)
+    outs = interp.exec_fn(State(), name, [mk_cell(planes, verts)], {})
+    run.add_functions(interp, funcs)
+    bad = []
+    if len(outs) != 1 or interp.panics:
+        bad.append('%d normal paths / %d panics' % (len(outs), len(interp.panics)))
+    else:
+        cell2 = outs[0][1]
+        lists = face_lists(cell2)
+        if lists is None:
+            bad.append('face data absent')
+        else:
+            bad += check_polytope(run, 'prism', verts, lists)
+            top = [l for p_, l in lists if p_ == 0]
+            if not top or len(top[0]) != N:
+                bad.append('the top face lists %s of its %d vertices' % (len(top[0]) if top else 'none', N))
+            # the accessors on the real record
+            for acc in ('face_vertex_count', 'face_vertices'):
+                aname = engine.find_fn(funcs, r'convex_cell::<impl at [^>]*>::%s$' % acc)
+                fidx = [k for k, (p_, l) in enumerate(lists) if p_ == 0][0]
+                s2 = State()
+                s2.heap[1] = cell2
+                i2 = engine.new_interp(funcs)
+                for s3, v in i2.exec_fn(s2, aname, [Ref(('H', 1)), fidx], {}):
+                    got = v if acc == 'face_vertex_count' else len(i2.deref_read(s3, v).items)
+                    if got != N:
+                        bad.append('%s(top face) gives %r, the face has %d vertices' % (acc, got, N))
+    run.obligations.append({'name': 'C15 with_faces on a %d-gon prism (faces with more than 255 vertices): valid polytope, counts and vertex lists exact' % N, 'expect': 'unsat',
+                            'verdict': 'sat' if bad else 'unsat', 'solver': 'concrete execution of the MIR + structural checks', 'solver_s': 0.0, 'detail': bad[:3]})
+    if bad:
+        pl = {'kind': 'large_face'}
+        r = check_large_face_native(pl)
+        if r:
+            run.violation('C15 large face: %s; natively: %s' % (bad[0], r), engine.save_replay('C15', pl))
+        else:
+            run.suspect.append('C15 with_faces on a %d-gon prism: %s (the native ring scenario shows no difference)' % (N, bad[0]))
+
+
+def check_large_face_native(p, profile='debug'):
+    """two generators on the axis of a ring of 300 others: their cells are 300-gon prisms (faces with 300 vertices)"""
+    for prof in ('debug', 'release'):
+        o = engine.native(['polytope_ring 300'], prof)[0]
+        if o[0] != 'ok':
+            return 'with_faces on the cells inside a ring of 300 generators panicked (%s build): %s' % (prof, ' '.join(o[1:12]))
+        if o[1] != 'valid':
+            return '%s [%s build]' % (' '.join(o[1:40]), prof)
+    return None
+
+
 def rejected_in_lower_dimensions(run, funcs):
     for cname, planes, verts in catalogue(funcs)[:1]:
         for dim in ('OneD', 'TwoD'):
@@ -278,6 +343,7 @@ def check(run):
     run.guard(rejected_in_lower_dimensions, funcs)
     run.guard(accessors, funcs)
     run.guard(combinatorics, funcs, 6 if run.tier == 'quick' else 40)
+    run.guard(large_face, funcs)
     from . import staterules as SR
     run.guard(SR.cell_transitions, funcs, 'C15')
     run.guard(SR.cell_clone, funcs, 'C15')            # face data is still present after clone (unchecked access relies on it)
@@ -290,7 +356,7 @@ def replay(path):
     from . import staterules as SR
     if d['kind'] in SR.NATIVE:
         return SR.replay(d)
-    f = {'with_faces_lowdim': check_lowdim_native, 'accessor_own_image': check_accessor_native, 'polytope': check_polytope_native}[d['kind']]
+    f = {'with_faces_lowdim': check_lowdim_native, 'accessor_own_image': check_accessor_native, 'polytope': check_polytope_native, 'large_face': check_large_face_native}[d['kind']]
     bad = f(d)
     print(bad)
     return 1 if bad else 0
